@@ -51,6 +51,7 @@ import (
 	"regexp"
 	"sort"
 	"sync"
+	"unicode/utf8"
 
 	"github.com/google/licenseclassifier/stringclassifier/internal/pq"
 	"github.com/google/licenseclassifier/stringclassifier/searchset"
@@ -128,7 +129,7 @@ func (c *Classifier) AddValue(key, value string) error {
 	c.values[key] = &knownValue{
 		key:             key,
 		normalizedValue: norm,
-		reValue:         regexp.MustCompile(regexp.QuoteMeta(norm)),
+		reValue:         regexp.MustCompile(literalPattern(norm)),
 	}
 	return nil
 }
@@ -146,10 +147,28 @@ func (c *Classifier) AddPrecomputedValue(key, value string, set *searchset.Searc
 	c.values[key] = &knownValue{
 		key:             key,
 		normalizedValue: value,
-		reValue:         regexp.MustCompile(regexp.QuoteMeta(value)),
+		reValue:         regexp.MustCompile(literalPattern(value)),
 		set:             set,
 	}
 	return nil
+}
+
+// literalPattern returns a regular expression that matches s literally. The
+// regexp package cannot express an invalid UTF-8 byte in a pattern but reads
+// every such byte of the searched text as U+FFFD, so invalid bytes of s are
+// written as that rune, one per byte.
+func literalPattern(s string) string {
+	var b []byte
+	for i := 0; i < len(s); {
+		r, size := utf8.DecodeRuneInString(s[i:])
+		if r == utf8.RuneError && size == 1 {
+			b = append(b, "\uFFFD"...)
+		} else {
+			b = append(b, s[i:i+size]...)
+		}
+		i += size
+	}
+	return regexp.QuoteMeta(string(b))
 }
 
 // normalize a string by applying each of the registered NormalizeFuncs.
